@@ -79,6 +79,9 @@ class SpecMemory:
         if not directly_write_to_lower_memory:
             self.counted_accesses += 1
 
+    def reset(self):
+        self.L = {}
+
     def get_address_range(self):
         return range(self.lo, TOP)
 
